@@ -204,14 +204,29 @@ def unseeded_seeds(cfg):
   return []
 
 
-def setup(world, cfg):
+def setup(world, cfg, record=None):
   import random
   g = unseeded_seeds(cfg)
   # Global `random` state at setup time: position 0 of the stream named by the (single) unseeded Random.
   random.seed(g[0] if g else 12345)
   algo = build(world, cfg)
+  if record is not None:
+    # record what the real reproduction returns (step -> children): the oracle table of the model
+    orig = algo.reproduction
+
+    def recording(pop, global_state, step):
+      out = orig(pop, global_state=global_state, step=step)
+      record[step] = [world.idx(d) for d in out]
+      return out
+    algo.rebind(reproduction=recording)
   algo.setup(world.spec)
   return algo
+
+
+def nsga2_objectives(r):
+  """Objective values from {0, 1, 2}: every crowding-distance quotient is dyadic, so the float arithmetic
+  of the implementation is exact (the model computes with exact rationals)."""
+  return (float(r % 3), float((r // 3) % 3))
 
 
 def is_multi(cfg):
@@ -236,9 +251,9 @@ def try_propose(world, algo):
     return None, type(e).__name__
 
 
-def run_live(world, cfg, events):
+def run_live(world, cfg, events, record=None):
   """Runs the events on a fresh live instance. Returns (algo, history, log)."""
-  algo = setup(world, cfg)
+  algo = setup(world, cfg, record)
   multi = is_multi(cfg)
   hist, log = [], []
   for e in events:
@@ -257,7 +272,7 @@ def run_live(world, cfg, events):
         if 'reward' in dna.metadata:          # automatic reward of Deduping: what pg.sample feeds back
           reward = dna.metadata['reward']
         if multi:
-          reward = (float(r), float((r * 7 + i) % 5))
+          reward = nsga2_objectives(r)
         try:
           algo.feedback(dna, reward)
           hist[i][1] = reward
@@ -423,6 +438,30 @@ def streams(world, cfg, n):
 # The property
 # ------------------------------------------------------------------------------------------
 
+def modelled_nsga2(cfg):
+  return cfg['kind'] == 'real' and cfg['name'] == 'nsga2'
+
+
+_NSGA2_FACTOR = []
+
+
+def nsga2_init_factor():
+  """population_init size / population_size, as extracted from nsga2.py by translate/t_c15.py."""
+  if not _NSGA2_FACTOR:
+    with open(os.path.join(VERIF, 'lean', 'PgGen', 'C15Quirks.json')) as f:
+      _NSGA2_FACTOR.append(json.load(f)['nsga2']['initFactor'])
+  return _NSGA2_FACTOR[0]
+
+
+def nsga2_view(obs):
+  """What the model predicts of an NSGA2 instance: counters, generation, population, elites."""
+  if 'error' in obs:
+    return obs
+  el = (obs.get('gstate') or {}).get('elites')
+  return {'np': obs['np'], 'nf': obs['nf'], 'gen': obs['gen'], 'pop': obs['pop'],
+          'elites': None if el is None else [[x[1], x[2]] for x in el]}
+
+
 def has_real(cfg):
   k = cfg['kind']
   if k == 'real':
@@ -575,8 +614,11 @@ class C15(Prop):
           'crash point has a proposal in flight and some has a reward; distinct by (algo, space, events).')
   trusted_base = [
       'random.Random bit streams (the oracle stream fed to the model is recorded from the real PRNG)',
-      'reproduction / population-update operations of Evolution are parameters of the model (tied only for '
-      'the deterministic operations of the harness; real operators run oracle-only)',
+      'reproduction / population-update operations of Evolution are parameters of the model: tied for the '
+      'deterministic operations of the harness and for the NSGA2 population update (non-dominated sort, '
+      'crowding distance, elites; PgModel/Nsga2.lean, objective values from {0,1,2} so that the float '
+      'arithmetic of the code is exact) with the mutator recorded as an oracle table; regularized_evolution, '
+      'hill_climb, NEAT (speciation lives in DNA.userdata and species representatives) run oracle-only',
       'pg.to_json_str / pg.from_json_str of the history (C05); DNA identity = index in spec.iter_dna() (C11)',
       'Deduping._cache is read directly (no public accessor for the de-duplication memory)',
       'modelled, not verified: the generator state machines of PgModel/Gen.lean (tied by correspondence at '
@@ -705,14 +747,31 @@ class C15(Prop):
 
   def model_request(self, case):
     cfg = case['algo']
+    world = world_of(case['dims'])
+    if modelled_nsga2(cfg):
+      # NSGA2's selection is in the model (PgModel/Nsga2.lean); the mutator's children are an oracle table
+      table = {}
+      run_live(world, cfg, case['events'], record=table)
+      n_init = cfg['population_size'] * nsga2_init_factor()
+      algo = {'kind': 'evo', 'init': {'kind': 'random', 'seed': cfg['seed'], 'seeded': True},
+              'init_size': n_init, 'repro': ['table', 1], 'update': ['nsga2', cfg['population_size']]}
+      n = sum(1 for e in case['events'] if e[0] == 'p') + 4
+      return {'algo': algo, 'space': list(range(len(world.dnas))), 'streams': streams(world, algo, n),
+              'events': case['events'], 'm': 0, 'cuts': list(case.get('cuts', [])),
+              'table': {str(k): v for k, v in table.items()}}
     if has_real(cfg):
       return None            # real reproduction operators: oracle only
-    world = world_of(case['dims'])
     m = case.get('m', 3)
     n = sum(1 for e in case['events'] if e[0] == 'p') + m
     n = min(4000, n * attempts_bound(cfg) + 4)
     return {'algo': cfg, 'space': list(range(len(world.dnas))), 'streams': streams(world, cfg, n),
             'events': case['events'], 'm': m, 'cuts': list(case.get('cuts', []))}
+
+  def project_impl(self, case, impl_out):
+    if modelled_nsga2(case['algo']) and 'model' in impl_out:
+      return {'ks': [{'live': nsga2_view(e['live']), 'rec': nsga2_view(e['rec']), 'hist': e['hist'],
+                      'live_next': [], 'rec_next': []} for e in impl_out['model']['ks']]}
+    return Prop.project_impl(self, case, impl_out)
 
   def impl(self, case):
     world = world_of(case['dims'])
